@@ -488,3 +488,16 @@ func VpScopeAt(p *AllProject, names []string, probe string) (visible []string, a
 	}
 	return r.probeVisible, allLocals, globals, r.probeCtx, r.probeFound
 }
+
+// globalMultiFile: global `name` is assigned in more than one file of the workspace.
+func (r *rbT) globalMultiFile(name string) bool {
+	first := -1
+	for _, i := range r.globalDefs(name) {
+		if first < 0 {
+			first = r.occs[i].file
+		} else if r.occs[i].file != first {
+			return true
+		}
+	}
+	return false
+}
